@@ -9,6 +9,9 @@ package server
 // preimage of Hash() (decoded by trying the sub-sequences of the batch against the real digest),
 // the ids left in awaitingCmds and the outcome every waiter got.  Streams: "cio_x" (every trace
 // of length 3 over a small alphabet), "cio_r" (seeded random), "cio_b" (boundary / malformed),
+// Lifecycle: Stop (also twice, before / after the command executes) and cancellation of a waiting
+// caller's context are operations of the traces too; a handler released that way may fail or keep
+// waiting, never report success.
 // "cio_w" (seeded random over wide values: client ids that agree in their low 8/16/24 bits, id 0,
 // 2^31+1, 2^32-1; sequence numbers around 2^32, 2^63 and 2^64-1 that agree in their low 32 bits).
 // Every trace also checks that Exec/Abort leave the batch they were handed untouched, that the
@@ -51,7 +54,7 @@ type c06Cmd struct {
 }
 
 type c06Ev struct {
-	Kind  string   `json:"k"` // "reg" | "exec" | "abort"
+	Kind  string   `json:"k"` // "reg" | "exec" | "abort" | "stop" (ClientIO.Stop) | "cancel" (the context of the caller waiting on Cmd)
 	Cmd   c06Cmd   `json:"cmd,omitempty"`
 	Batch []c06Cmd `json:"batch,omitempty"`
 	Nil   bool     `json:"nil,omitempty"` // nil *Batch
@@ -96,11 +99,12 @@ func (e c06Ev) batchPB() *clientpb.Batch {
 // a waiting client: the real ExecCommand handler running in a goroutine
 
 type c06Waiter struct {
-	tok  int
-	id   clientpb.MessageID
-	done chan error
-	got  bool
-	err  error
+	cancel context.CancelFunc
+	tok    int
+	id     clientpb.MessageID
+	done   chan error
+	got    bool
+	err    error
 }
 
 var c06CtxOK = true
@@ -108,6 +112,10 @@ var c06CtxOK = true
 // c06ServerCtx builds a gorums.ServerCtx whose Release() unlocks mu (the type has no exported
 // constructor; the fields are filled in by reflection).
 func c06ServerCtx(mu *sync.Mutex) (ctx gorums.ServerCtx, ok bool) {
+	return c06ServerCtxWith(context.Background(), mu)
+}
+
+func c06ServerCtxWith(parent context.Context, mu *sync.Mutex) (ctx gorums.ServerCtx, ok bool) {
 	defer func() {
 		if recover() != nil {
 			ok = false
@@ -118,7 +126,7 @@ func c06ServerCtx(mu *sync.Mutex) (ctx gorums.ServerCtx, ok bool) {
 		f := rv.FieldByName(name)
 		reflect.NewAt(f.Type(), unsafe.Pointer(f.UnsafeAddr())).Elem().Set(reflect.ValueOf(val))
 	}
-	ctx.Context = context.Background()
+	ctx.Context = parent
 	set("once", new(sync.Once))
 	set("mut", mu)
 	return ctx, true
@@ -127,11 +135,12 @@ func c06ServerCtx(mu *sync.Mutex) (ctx gorums.ServerCtx, ok bool) {
 // c06Register admits one waiting client. It returns after the handler has stored its channel in
 // awaitingCmds, added the command to the cache and released the server lock.
 func c06Register(srv *ClientIO, cmd *clientpb.Command, tok int) *c06Waiter {
-	w := &c06Waiter{tok: tok, id: cmd.ID(), done: make(chan error, 4)}
+	cctx, cancel := context.WithCancel(context.Background())
+	w := &c06Waiter{tok: tok, id: cmd.ID(), done: make(chan error, 4), cancel: cancel}
 	if c06CtxOK {
 		mu := &sync.Mutex{}
 		mu.Lock()
-		ctx, ok := c06ServerCtx(mu)
+		ctx, ok := c06ServerCtxWith(cctx, mu)
 		if ok {
 			go func() {
 				_, err := srv.ExecCommand(ctx, cmd)
@@ -318,6 +327,29 @@ func (r *c06Run) trace(stream *verifStream, name string, evs []c06Ev) {
 			current[w.id] = w
 			gev = fmt.Sprintf("(CRegister (%d,%d) %d)", e.Cmd.C, e.Cmd.S, w.tok)
 			v.Count("ev:reg")
+		case "stop", "cancel":
+			r.step.Store(int64(si))
+			func() {
+				defer func() {
+					if p := recover(); p != nil {
+						v.Oracle(false, "clientio."+e.Kind+":panic", fmt.Sprint(p), meta)
+						sentinel = true
+					}
+				}()
+				if e.Kind == "stop" {
+					srv.Stop()
+				} else if w := current[e.Cmd.pb().ID()]; w != nil {
+					w.cancel()
+				}
+			}()
+			gev = "CLifecycle"
+			v.Count("ev:" + e.Kind)
+			for _, w := range waiters {
+				if !w.got {
+					time.Sleep(2 * time.Millisecond) // a released handler needs a moment to return
+					break
+				}
+			}
 		case "exec", "abort":
 			r.step.Store(int64(si))
 			pbBatch := e.batchPB()
@@ -456,7 +488,7 @@ func (r *c06Run) trace(stream *verifStream, name string, evs []c06Ev) {
 			}
 			gotNow := false
 			inB := false
-			if e.Kind != "reg" {
+			if e.Kind == "exec" || e.Kind == "abort" {
 				for _, c := range e.Batch {
 					if c.pb().ID() == w.id {
 						inB = true
@@ -497,8 +529,15 @@ func (r *c06Run) trace(stream *verifStream, name string, evs []c06Ev) {
 					inBatch = true
 				}
 			}
-			v.Oracle(e.Kind != "reg" && inBatch && current[w.id] == w, "clientio.outcome:unrelated-command",
-				fmt.Sprintf("step %d (%s): waiter %d for %v got an outcome although its command is not in the batch", si, e.Kind, w.tok, w.id), meta)
+			if e.Kind == "stop" || e.Kind == "cancel" {
+				// a handler released by Stop / by its caller going away may return an error (or keep
+				// waiting), never success: this replica did not execute the command for it
+				v.Oracle(w.err != nil, "clientio.lifecycle:released-handler-reports-success",
+					fmt.Sprintf("step %d (%s): the ExecCommand handler of waiter %d for %v returned a nil error", si, e.Kind, w.tok, w.id), meta)
+			} else {
+				v.Oracle(e.Kind != "reg" && inBatch && current[w.id] == w, "clientio.outcome:unrelated-command",
+					fmt.Sprintf("step %d (%s): waiter %d for %v got an outcome although its command is not in the batch", si, e.Kind, w.tok, w.id), meta)
+			}
 			// success_after_exec
 			if w.err == nil {
 				// the property's sentence: success only after the command was executed here (the model,
@@ -529,9 +568,16 @@ func (r *c06Run) trace(stream *verifStream, name string, evs []c06Ev) {
 	// at the end: no waiter has a second outcome pending, orphans and never-completed got nothing
 	for _, w := range waiters {
 		select {
-		case <-w.done:
-			v.Oracle(false, "clientio.complete:second-outcome-for-one-waiter",
-				fmt.Sprintf("waiter %d for %v received a second outcome", w.tok, w.id), meta)
+		case err := <-w.done:
+			if w.got {
+				v.Oracle(false, "clientio.complete:second-outcome-for-one-waiter",
+					fmt.Sprintf("waiter %d for %v received a second outcome", w.tok, w.id), meta)
+			} else {
+				// an outcome that no step accounts for (it arrived late)
+				sentinel = true
+				v.Oracle(err != nil || executed[w.id] > 0, "clientio.outcome:success-without-execution",
+					fmt.Sprintf("waiter %d for %v got a nil error but the command has not been executed", w.tok, w.id), meta)
+			}
 		default:
 		}
 	}
@@ -629,6 +675,12 @@ func (r *c06Run) concurrent(trial int) {
 				}
 			}(c)
 		}
+	}
+	if rng.Intn(2) == 0 {
+		// the replica is being stopped while the committer still executes
+		d := time.Duration(rng.Intn(300)) * time.Microsecond
+		go func() { time.Sleep(d); srv.Stop(); srv.Stop() }()
+		v.Count("conc:stop-racing")
 	}
 	finished := make(chan struct{})
 	go func() {
@@ -731,6 +783,7 @@ func c06Alphabet(ids []c06Cmd, maxBatch int) []c06Ev {
 			evs = append(evs, c06Ev{Kind: k, Batch: b})
 		}
 	}
+	evs = append(evs, c06Ev{Kind: "stop"})
 	return evs
 }
 
@@ -779,7 +832,11 @@ func c06RandomTraceOf(rng *rand.Rand, maxLen, maxBatch int, fresh0 func() c06Cmd
 	}
 	for i := 0; i < n; i++ {
 		switch x := rng.Intn(100); {
-		case x < 35:
+		case x < 5:
+			evs = append(evs, c06Ev{Kind: "stop"})
+		case x < 8:
+			evs = append(evs, c06Ev{Kind: "cancel", Cmd: pick()})
+		case x < 38:
 			evs = append(evs, c06Ev{Kind: "reg", Cmd: pick()})
 		case x < 85:
 			nb := rng.Intn(maxBatch + 1)
@@ -808,31 +865,44 @@ func c06Boundary() [][]c06Ev {
 	reg := func(c c06Cmd) c06Ev { return c06Ev{Kind: "reg", Cmd: c} }
 	ex := func(b ...c06Cmd) c06Ev { return c06Ev{Kind: "exec", Batch: b} }
 	ab := func(b ...c06Cmd) c06Ev { return c06Ev{Kind: "abort", Batch: b} }
+	cancel := func(c c06Cmd) c06Ev { return c06Ev{Kind: "cancel", Cmd: c} }
+	stop := c06Ev{Kind: "stop"}
 	a0, a1, a2, a3 := c06Mk(1, 0), c06Mk(1, 1), c06Mk(1, 2), c06Mk(1, 3)
 	b1, b2 := c06Mk(2, 1), c06Mk(2, 2)
 	big := c06Cmd{C: maxC, S: maxS, D: []byte{255}}
 	bigm := c06Cmd{C: maxC, S: maxS - 1, D: []byte{254}}
 	empty := c06Cmd{C: 3, S: 1, D: nil}
 	empty2 := c06Cmd{C: 3, S: 2, D: []byte{}}
-	a1x := c06Cmd{C: 1, S: 1, D: []byte{9, 9, 9}} // same id as a1, other payload
+	a1x := c06Cmd{C: 1, S: 1, D: []byte{9, 9, 9}}   // same id as a1, other payload
 	same := c06Cmd{C: 4, S: 1, D: c06Payload(1, 1)} // other id, same payload as a1
 	return [][]c06Ev{
 		{{Kind: "exec", Nil: true}, {Kind: "abort", Nil: true}, ex(), ab()},
-		{ex(a0), ex(a0), ex(a1), ex(a0)},                       // sequence number 0 executes once
-		{reg(a0), ex(a0), reg(a0), ex(a0)},                     // re-registered after execution: failure
-		{ex(big), ex(big), ex(bigm), reg(big), ab(big)},        // extreme ids
-		{ex(bigm), ex(big), ex(bigm)},                          //
-		{ex(empty), ex(empty2), ex(empty), reg(empty), ab(empty)}, // empty payloads: count moves, digest does not
-		{reg(a1), ex(a1x), ex(a1)},                             // same id, other payload: first one wins
-		{ex(a1, same), ex(same, a1)},                           // same payload under two ids
-		{reg(a1), reg(a1), ex(a1), ex(a1), ab(a1)},             // second registration orphans the first
-		{reg(a1), ab(a1), ex(a1), reg(a1), ex(a1)},             // aborted, later executed; waiter after that gets failure
-		{reg(a1), reg(a2), reg(a3), ex(a3, a2, a1)},            // out of order inside one batch: only a3 executes
+		{ex(a0), ex(a0), ex(a1), ex(a0)},                            // sequence number 0 executes once
+		{reg(a0), ex(a0), reg(a0), ex(a0)},                          // re-registered after execution: failure
+		{ex(big), ex(big), ex(bigm), reg(big), ab(big)},             // extreme ids
+		{ex(bigm), ex(big), ex(bigm)},                               //
+		{ex(empty), ex(empty2), ex(empty), reg(empty), ab(empty)},   // empty payloads: count moves, digest does not
+		{reg(a1), ex(a1x), ex(a1)},                                  // same id, other payload: first one wins
+		{ex(a1, same), ex(same, a1)},                                // same payload under two ids
+		{reg(a1), reg(a1), ex(a1), ex(a1), ab(a1)},                  // second registration orphans the first
+		{reg(a1), ab(a1), ex(a1), reg(a1), ex(a1)},                  // aborted, later executed; waiter after that gets failure
+		{reg(a1), reg(a2), reg(a3), ex(a3, a2, a1)},                 // out of order inside one batch: only a3 executes
 		{reg(a1), reg(a2), reg(a3), ex(a1, a2, a3), ab(a1, a2, a3)}, // abort after execute is a no-op
 		{reg(a2), reg(b2), ex(a1, b1), ab(a2), ex(a2, b2), ex(b2, a2, b1, a1)},
-		{reg(a1), ex(a1, a1, a1), ex(a1)},                      // duplicates inside one batch
-		{reg(a2), ex(a1, a2, a1, a2, a3, a3)},                  //
-		{reg(b1), ab(b1, b1), ex(b1)},                          // duplicates inside an abort batch
+		{reg(a1), ex(a1, a1, a1), ex(a1)},     // duplicates inside one batch
+		{reg(a2), ex(a1, a2, a1, a2, a3, a3)}, //
+		{reg(b1), ab(b1, b1), ex(b1)},         // duplicates inside an abort batch
+		// lifecycle: handlers in flight when the replica stops / the caller goes away
+		{reg(a1), stop},
+		{reg(a1), reg(b1), stop, stop},
+		{reg(a1), stop, ex(a1)}, // stopped, then the command's block commits after all
+		{reg(a1), stop, ab(a1)}, //
+		{reg(a1), ex(a1), stop, reg(a1), stop, ex(a1)},
+		{stop, reg(a1), ex(a1)},       // registered after Stop
+		{reg(a1), cancel(a1), ex(a1)}, // the caller's context is cancelled while it waits
+		{reg(a1), cancel(a1), stop, ab(a1)},
+		{reg(a1), reg(a2), cancel(a2), stop, ex(a2, a1), stop},
+		{reg(a1), reg(a1), cancel(a1), stop, ex(a1)}, // the orphaned first waiter stays silent
 	}
 }
 
